@@ -75,6 +75,8 @@ type HarnessResult struct {
 	Funcs        []string       `json:"functions,omitempty"`
 	Samples      []PathSample   `json:"samples,omitempty"`
 	Decisions    int            `json:"decisions"`
+	DomDecided   int            `json:"decided_by_domain_enumeration"`
+	AssertsDom   int            `json:"asserts_by_domain_enumeration"`
 	Stubs        []string       `json:"stubs,omitempty"`
 	Steps        int            `json:"steps"`
 	Witnesses    []Witness      `json:"witnesses,omitempty"`
@@ -112,6 +114,8 @@ type Explorer struct {
 	violKeys map[string]bool
 	stubs    map[string]bool
 	wantWit  int
+	shardI   int
+	shardN   int
 }
 
 func (ex *Exec) decide(c *Term) bool {
@@ -179,19 +183,34 @@ func (x *Explorer) decide(c *Term) bool {
 	}
 	x.res.Decisions++
 	e := traceEntry{kind: eBranch, cond: c, levelPre: x.s.level}
-	rt := x.feasible(c)
-	if rt == "unsat" {
+	both := func() {
+		e.taken = 1
+		e.altLeft = true
+		e.pushed = true
+		x.s.Push()
+		x.s.Assert(c)
+	}
+	switch x.s.Quick(c) {
+	case 1:
+		e.taken, e.forced = 1, true
+		x.res.DomDecided++
+	case 0:
 		e.taken, e.forced = 0, true
-	} else {
-		rf := x.feasible(mkNot(c))
-		if rf == "unsat" {
-			e.taken, e.forced = 1, true
+		x.res.DomDecided++
+	case 2:
+		x.res.DomDecided++
+		both()
+	default:
+		rt := x.feasible(c)
+		if rt == "unsat" {
+			e.taken, e.forced = 0, true
 		} else {
-			e.taken = 1
-			e.altLeft = true
-			e.pushed = true
-			x.s.Push()
-			x.s.Assert(c)
+			rf := x.feasible(mkNot(c))
+			if rf == "unsat" {
+				e.taken, e.forced = 1, true
+			} else {
+				both()
+			}
 		}
 	}
 	x.trace = append(x.trace, e)
@@ -208,9 +227,29 @@ func (x *Explorer) choose(n int) int {
 		}
 		return int(e.taken)
 	}
-	x.trace = append(x.trace, traceEntry{kind: eChoice, taken: 0, nAlt: n, levelPre: x.s.level})
+	e := traceEntry{kind: eChoice, taken: 0, nAlt: n, levelPre: x.s.level}
+	if x.shardN > 1 && !x.hasChoiceBefore() {
+		// first free choice of the path: this process only takes its share
+		e.forced = true // marks the sharded entry
+		if x.shardI >= n {
+			x.trace = append(x.trace, traceEntry{kind: eChoice, taken: uint64(n), nAlt: n, levelPre: x.s.level, forced: true})
+			x.pos++
+			panic(pathEnd{"shard has no share of this choice"})
+		}
+		e.taken = uint64(x.shardI)
+	}
+	x.trace = append(x.trace, e)
 	x.pos++
-	return 0
+	return int(e.taken)
+}
+
+func (x *Explorer) hasChoiceBefore() bool {
+	for _, e := range x.trace {
+		if e.kind == eChoice {
+			return true
+		}
+	}
+	return false
 }
 
 func (x *Explorer) concretize(t *Term) uint64 {
@@ -261,12 +300,21 @@ func (x *Explorer) assume(c *Term) {
 		panic(pathEnd{"assumption false"})
 	}
 	e := traceEntry{kind: eAssume, cond: c, levelPre: x.s.level, pushed: true}
+	q := x.s.Quick(c)
+	if q == 0 {
+		x.res.DomDecided++
+		panic(pathEnd{"assumption infeasible"})
+	}
 	x.s.Push()
 	x.s.Assert(c)
-	r := x.check()
-	if r == "unsat" {
-		x.s.Pop()
-		panic(pathEnd{"assumption infeasible"})
+	if q == 1 || q == 2 {
+		x.res.DomDecided++
+	} else {
+		r := x.check()
+		if r == "unsat" {
+			x.s.Pop()
+			panic(pathEnd{"assumption infeasible"})
+		}
 	}
 	x.trace = append(x.trace, e)
 	x.pos++
@@ -438,9 +486,13 @@ func (x *Explorer) backtrack() bool {
 				return true
 			}
 		case eChoice:
-			if int(e.taken)+1 < e.nAlt {
+			step := 1
+			if e.forced && x.shardN > 1 {
+				step = x.shardN
+			}
+			if int(e.taken)+step < e.nAlt {
 				x.s.PopTo(e.levelPre)
-				e.taken++
+				e.taken += uint64(step)
 				return true
 			}
 		case eConc:
@@ -478,9 +530,9 @@ func (x *Explorer) backtrack() bool {
 }
 
 // RunHarness explores all paths of harness function h.
-func RunHarness(ex *Exec, s *Solver, h *ssa.Function, maxPaths int, budget time.Duration, wantWitness int) *HarnessResult {
+func RunHarness(ex *Exec, s *Solver, h *ssa.Function, maxPaths int, budget time.Duration, wantWitness int, shardI, shardN int) *HarnessResult {
 	res := &HarnessResult{Harness: h.Name(), Asserts: map[string]int{}, AssertsTriv: map[string]int{}, Reached: map[string]int{}, Unsupported: map[string]int{}}
-	x := &Explorer{ex: ex, s: s, res: res, maxPaths: maxPaths, deadline: time.Now().Add(budget), stubs: map[string]bool{}, wantWit: wantWitness}
+	x := &Explorer{ex: ex, s: s, res: res, maxPaths: maxPaths, deadline: time.Now().Add(budget), stubs: map[string]bool{}, wantWit: wantWitness, shardI: shardI, shardN: shardN}
 	ex.trackFns = map[string]bool{}
 	t0 := time.Now()
 	sat0, unsat0, secs0 := s.nSat, s.nUnsat, s.secs
